@@ -90,7 +90,7 @@ let run (path : string) =
             else bump "judged:bounded";
             if not (AccrualPair.holds_C18_pair_charge calc nowz !prev_fee tchg cov owed charged) then
               predfail ~case:!case ~step:!step ~pred:"pair_charge"
-                ~kf:(if g.AccrualPair.pv_taint then "kf_C18_2" else "none")
+                ~kf:"none"
                 ~detail:(Printf.sprintf "op=%s_vault=%d_now=%s_fee=%s_since=%s_settled=%s_owed=%s_charged=%s" !opk i (sz nowz) (sz !prev_fee)
                            (sz tchg) (sz cov) (sz owed) (sz charged))
           | Some _ -> ()) obs_v;
